@@ -107,6 +107,7 @@ Proof.
   destruct (cull c now pg _) as [s3 cl2] eqn:C. cbn [fst snd] in Tl. apply Tl; auto.
   - intros r I. apply (push_collides_false _ _ r Pc I).
   - unfold push_dbk. cbv zeta. apply qkey_make_wf.
+  - unfold push_dbk. cbv zeta. apply qkey_make_nonnull.
 Qed.
 
 Theorem body_ok_pull retry c p sd now : body_ok refs Winv (w_pull retry c p sd now).
